@@ -40,6 +40,12 @@ def chan_modset(V, x):
     op = x.get('op')
     if op == 'Go':
         return {gk('go_count')}
+    if op == 'Send':
+        return {gk('ch_sent'), gk_arr('sent_on')}
+    if op == 'UnOp':
+        return {gk('ch_recv'), gk_arr('recv_on')}
+    if op in ('Call', 'Defer'):      # close(ch)
+        return {gk('ch_closed'), gk_arr('closed_on')}
     return {gk(n) for n in ('ch_sent', 'ch_recv', 'ch_closed')} | {gk_arr('sent_on'), gk_arr('closed_on'), gk_arr('recv_on')}
 
 
@@ -124,17 +130,68 @@ def do_go(X, ins):
     """spawn: the body is not executed here; its possible writes are havocked"""
     from .modset import call_modset
     bump(X, 'go_count')
-    try:
-        mod = call_modset(X.V, X.fn, ins, [X.fnkey])
-    except OutOfSubset:
-        raise
+    from . import modset as MS
+    from .modset import func_modset, find_def
+    from .calls import alloc_key_of
+    mod, confined = go_effects(X.V, X.fn, ins, [X.fnkey])
+    fr = z3.Const('go_r', I)
+    for key in sorted(confined, key=str):
+        ak = alloc_key_of(key)
+        if ak is None or key[0] not in ('f', 'el', 'cell', 'mdom', 'mval', 'msize', 'ghost'):
+            mod.add(key)
+            continue
+        # written only inside objects the goroutine allocates itself: everything allocated so far keeps its value
+        nv = X.V.fresh_heap_const(key, X.tag + 'go')
+        oldv = X.heap.get(key)
+        X.hyp(z3.ForAll([fr], z3.Implies(fr <= X.heap.get(ak), nv[fr] == oldv[fr]), patterns=[nv[fr]]))
+        X.heap.set(key, nv)
     for key in sorted(mod, key=str):
         nv = X.V.fresh_heap_const(key, X.tag + 'go')
         if key[0] == 'alloc':
             X.hyp(nv >= X.heap.get(key))
         X.heap.set(key, nv)
-    # captured variables of a closure may be written by the goroutine at any later time
     X.V.notes.append('effects of spawned goroutines on the spawning function after the go statement are havocked once, at the spawn point')
+
+
+def go_effects(V, fn, ins, stack):
+    """(keys the spawned function may write in existing objects, keys it writes only inside objects it allocates)"""
+    from . import modset as MS
+    saved_sink = MS.ALLOC_SINK
+    MS.ALLOC_SINK = set()
+    try:
+        mod = do_go_modset(V, fn, ins, stack)
+        confined = set(MS.ALLOC_SINK) - mod
+    finally:
+        MS.ALLOC_SINK = saved_sink
+    return mod, confined
+
+
+def do_go_modset(V, fn, ins, stack):
+    from .modset import call_modset
+    from .modset import func_modset, find_def
+
+    class _X:
+        pass
+    X = _X()
+    X.V = V
+    X.fn = fn
+    X.fnkey = stack[0]
+    X.w = V.world
+    mod = call_modset(X.V, X.fn, ins, list(stack))
+    # a spawned function whose contract has no assigns clause: take what its body may write
+    key = ins.get('static')
+    if key is None and ins['callee']['k'] == 'reg':
+        d = find_def(X.fn, ins['callee']['name'])
+        if d is not None and d['op'] == 'MakeClosure':
+            key = d['fn']
+    c = X.V.contracts['funcs'].get(key) if key else None
+    if c is not None and c.get('assigns') is None and key in X.w.prog.funcs:
+        saved = X.V.contracts['funcs'].pop(key)
+        try:
+            mod |= func_modset(X.V, key, [X.fnkey, key])
+        finally:
+            X.V.contracts['funcs'][key] = saved
+    return mod
 
 
 # ---------------------------------------------------------------------- range / next
